@@ -71,7 +71,7 @@ def safe_name(key):
     return re.sub(r"[^A-Za-z0-9_.+-]+", "_", key)[:180]
 
 
-def finish(res, tier, seed, t0, facts_info, prog_info, outdir=None, quiet=False):
+def finish(res, tier, seed, t0, facts_info, prog_info, outdir=None, quiet=False, write_evidence=True):
     """Print verdict lines, write replay files and evidence; return exit code."""
     prop = res.prop
     known = load_known()
@@ -184,9 +184,10 @@ def finish(res, tier, seed, t0, facts_info, prog_info, outdir=None, quiet=False)
         "wall_s": round(time.time() - t0, 2),
         "violations": n_viol,
     }
-    os.makedirs(os.path.join(VERIF, "evidence"), exist_ok=True)
-    with open(os.path.join(VERIF, "evidence", f"{prop}.json"), "w") as fh:
-        json.dump(ev, fh, indent=1, sort_keys=False)
+    if write_evidence:
+        os.makedirs(os.path.join(VERIF, "evidence"), exist_ok=True)
+        with open(os.path.join(VERIF, "evidence", f"{prop}.json"), "w") as fh:
+            json.dump(ev, fh, indent=1, sort_keys=False)
     if not quiet:
         tot = ", ".join(f"{r}:{d['holds']}/{d['instances']}" for r, d in sorted(per_rule.items()))
         print(f"[{prop}] tier={tier} instances={evaluations} nontrivial={nontrivial} obligations={discharged}/{obligations} "
